@@ -375,7 +375,8 @@ pub fn header_values(thorough: bool) -> Vec<String> {
 }
 
 pub fn scenarios(tier: Tier) -> Vec<Sc> {
-    let thorough = tier == Tier::Thorough;
+    let thorough = tier >= Tier::Thorough;
+    let deep = tier >= Tier::Deep;
     let mut out = vec![];
     let hosts = ["localhost", "example.com", "a.b-c.example", "10.0.0.1", "[fd00::1]", "EXAMPLE.Com"];
     let ports: [Option<u16>; 4] = [None, Some(443), Some(4433), Some(65535)];
@@ -428,6 +429,30 @@ pub fn scenarios(tier: Tier) -> Vec<Sc> {
             }
         }
     }
+    if deep {
+        // every pair with three more value pairings and the other decision; triples on a stride; singles under every decision
+        for (i, n1) in names.iter().enumerate() {
+            for (j, n2) in names.iter().enumerate() {
+                if i < j {
+                    for k in 1..4usize {
+                        out.push(Sc { headers: vec![(n1.clone(), values[(i + j + k * 5) % values.len()].clone()), (n2.clone(), values[(i * 7 + j + k) % values.len()].clone())], decision: ((i + j + 1) % 2 * 3) as u8, ..base.clone() });
+                    }
+                    for (l, n3) in names.iter().enumerate() {
+                        if j < l && (i * 17 + j * 5 + l) % 11 == 0 {
+                            out.push(Sc { headers: vec![(n1.clone(), values[l % values.len()].clone()), (n2.clone(), values[(i + l) % values.len()].clone()), (n3.clone(), values[(j + l) % values.len()].clone())], decision: (l % 7) as u8, ..base.clone() });
+                        }
+                    }
+                }
+            }
+        }
+        for n in &names {
+            for v in &values {
+                for d in [1u8, 3, 5] {
+                    out.push(Sc { headers: vec![(n.clone(), v.clone())], decision: d, host: "example.com".into(), port: Some(4433), path: "/a/b/".into(), query: Some("x=%2F".into()), ..base.clone() });
+                }
+            }
+        }
+    }
     // one maximal set just under the receiver's 4096-byte frame cap
     let mut big = vec![];
     for i in 0..28 {
@@ -442,6 +467,15 @@ pub fn scenarios(tier: Tier) -> Vec<Sc> {
                 continue;
             }
             out.push(Sc { kind: Kind::RawRequest { repr, order }, host: "example.com".into(), port: Some(4433), path: "/a/b".into(), query: Some("x=1".into()), headers: vec![("origin".into(), "https://example.com".into()), ("x".repeat(8), "~".repeat(130))], decision: (repr % 2 * 3) as u8, ..base.clone() });
+        }
+    }
+    if deep {
+        // every representation x order against two more requests (IPv4 literal authority; long path, no extra fields)
+        for repr in 0..n_repr {
+            for order in 0..3u8 {
+                out.push(Sc { kind: Kind::RawRequest { repr, order }, host: "10.0.0.1".into(), port: None, path: "/%20x".into(), query: Some("".into()), headers: vec![("accept-language".into(), "".into()), ("q".repeat(127), "0".repeat(127))], decision: (repr % 7) as u8, ..base.clone() });
+                out.push(Sc { kind: Kind::RawRequest { repr, order }, host: "a.b-c.example".into(), port: Some(65535), path: long_path.clone(), query: None, headers: vec![], decision: 0, ..base.clone() });
+            }
         }
     }
     // D. raw server: response variants
